@@ -141,7 +141,7 @@ func c02Run(it c02Item) (ok bool, desc string, extra map[string]any) {
 func TestC02(t *testing.T) {
 	r := rec.New("C02")
 	defer r.Flush()
-	r.Rule("work items (corpus proof in {A1,A2 (16 public inputs), B1,B2,B3 (97)}, query-round prefix k in 1..28, engine flavour {native, plain(bit decomposition), commit, forced bit decomposition}, wrapper {VerifierCircuit, CircuitFixed (A instances), gnark test engine, bound-monitored run, 'process history' = 40 circuits built one after the other in one process without ever emptying the repository's chip cache}, backend {evaluation engine; whole circuit compiled with gnark's real R1CS / SCS builder for the commit, forced-bit and native mechanisms and solved}); every item is a complete honest verification and must be ACCEPTed; monitored runs additionally require, at every witnessed reduction/multiply-add (grouped by static call site), that the largest operand an honest prover can produce fits the quotient width the circuit enforces.  Every item is non-trivial; distinct = item tuple.")
+	r.Rule("work items (corpus proof in {A1,A2 (16 public inputs), B1,B2,B3 (97)}, query-round prefix k in 1..28, configured proof-of-work difficulty as generated (16) or lowered (0, 1, 5, 8, 15; the transcript does not contain it, so the proof stays valid), engine flavour {native, plain(bit decomposition), commit, forced bit decomposition}, wrapper {VerifierCircuit, CircuitFixed (A instances), gnark test engine, bound-monitored run, 'process history' = 40 circuits built one after the other in one process without ever emptying the repository's chip cache}, backend {evaluation engine; whole circuit compiled with gnark's real R1CS / SCS builder for the commit, forced-bit and native mechanisms and solved}); every item is a complete honest verification and must be ACCEPTed; monitored runs additionally require, at every witnessed reduction/multiply-add (grouped by static call site), that the largest operand an honest prover can produce fits the quotient width the circuit enforces.  Every item is non-trivial; distinct = item tuple.")
 	r.Assume("the five corpus proofs were produced by the real plonky2 prover (they are accepted by the independent reference verifier)", "prefix restriction of an honest proof is an honest proof of the adjusted configuration", "monitor completeness side assumes values passing the Goldilocks RangeCheck are < p (C06)")
 
 	var rp c02Item
@@ -193,7 +193,21 @@ func TestC02(t *testing.T) {
 		add("A1", 40, eng.ModeCommit, false, "process-history")
 		add("A1", 40, eng.ModeNative, false, "process-history")
 		add("B1", 2, eng.ModeCommit, false, "plain")
+		// configuration variants: the same honest proofs against a description with a lower proof-of-work difficulty
+		add("A1@pow0", 3, eng.ModeNative, false, "plain")
+		add("B1@pow5", 1, eng.ModeNative, false, "plain")
+		add("A2@pow0", 1, eng.ModeNative, false, "fixed")
 	} else {
+		for i, b := range corp.Names {
+			for _, pw := range []int{0, 1, 8, 15} {
+				add(fmt.Sprintf("%s@pow%d", b, pw), 1+(i+pw)%5, eng.ModeNative, false, "plain")
+			}
+			add(b+"@pow0", 2, eng.ModePlain, false, "plain")
+			if isA(b) {
+				add(b+"@pow0", 1, eng.ModeNative, false, "fixed")
+			}
+		}
+		addC("A1@pow0", 1, eng.ModeCommit, "plain", "r1cs")
 		// compiled whole verifier: full proofs under the deployed configuration, prefixes under the others
 		addC("A1", 28, eng.ModeCommit, "fixed", "r1cs")
 		addC("B1", 28, eng.ModeCommit, "plain", "r1cs")
